@@ -41,11 +41,11 @@ struct SIMDVector<std::complex<T>, simd_abi::scalar> {
         return *this;
     }
 
-    FASTOR_INLINE void load(const scalar_value_type *data, bool ) {
+    FASTOR_INLINE void load(const scalar_value_type *data, bool = true) {
         value_r = (*data).real();
         value_i = (*data).imag();
     }
-    FASTOR_INLINE void store(scalar_value_type *data, bool ) const {
+    FASTOR_INLINE void store(scalar_value_type *data, bool = true) const {
         data[0] = scalar_value_type(value_r,value_i);
     }
 
